@@ -867,8 +867,14 @@ func exec(t []string) (string, string) {
 func panicOracle(toks []string, v any) (string, string) {
 	msg := fmt.Sprint(v)
 	if w != nil && (strings.Contains(msg, "prevoted for an invalid block") || strings.Contains(msg, "committed an invalid block")) {
+		// only reachable when more than 1/3 of the power voted for an invalid block
 		w.halted = true
 		return "panic:invalid-block", "-"
+	}
+	if w != nil && strings.Contains(msg, "AddVote() on nil VoteSet") {
+		// a single peer message stopped the consensus routine: the node will never commit again
+		w.halted = true
+		return "panic:lastcommit-nil", "VIOL:crash-lastcommit-nil " + strings.Join(toks, " ")
 	}
 	if os.Getenv("VERIF_TRACE") != "" {
 		fmt.Fprintf(os.Stderr, "panic: %v\n", v)
@@ -876,7 +882,7 @@ func panicOracle(toks []string, v any) (string, string) {
 	if w != nil {
 		w.halted = true
 	}
-	return "panic:" + msg, "-"
+	return "panic:" + msg, "VIOL:crash-unknown " + strings.Join(toks, " ")
 }
 
 func main() {
